@@ -28,7 +28,7 @@ RULE = (
 ASSUMPTIONS = ["when a default is re-registered, a runtime created while the earlier default was registered may serve either (the statement does not say); a runtime that predates the first registration must serve the current one"]
 FLOORS = {"programs": (15000, 150000), "runs_compared": (60000, 600000), "exits_by_exception": (3000, 30000),
           "reentered_active": (600, 6000), "started_without_runtime": (4000, 40000), "late_defaults": (3000, 30000), "default_reregistrations": (800, 8000),
-          "library_derived_blocks": (1500, 15000), "succession_threads": (3500, 35000), "succession_threads_without_runtime": (2000, 20000)}
+          "library_derived_blocks": (1500, 15000), "requests_whose_handler_raised": (1000, 10000), "succession_threads": (3500, 35000), "succession_threads_without_runtime": (2000, 20000)}
 SHARDS_QUICK = 4
 
 
@@ -45,6 +45,10 @@ def make_types():
 
 def tagger(tag):
     def handler(request):
+        if tag == "kerr":
+            # a handler may fail like any other code: its exception belongs to the caller, the request is not
+            # handed to another handler
+            raise KeyError("raised by the handler that serves the request")
         return tag
 
     handler.tag = tag
@@ -53,7 +57,7 @@ def tagger(tag):
 
 # ---- program generation ---------------------------------------------------
 
-TAGS = ["h1", "h2", "h3"]
+TAGS = ["h1", "h2", "h3", "kerr"]
 
 
 def gen_block(r, depth, size, names):
@@ -162,6 +166,9 @@ def execute(program):
                     got = types[T]().run()
                 except TypeError:
                     got = "TypeError"
+                except KeyError:
+                    got = "kerr"
+                    stats["handler_raised"] = stats.get("handler_raised", 0) + 1
                 stats["runs"] += 1
                 if exited[0]:
                     stats["run_after_exit"] += 1
@@ -251,6 +258,8 @@ def execute(program):
                     got = types[T]().run()
                 except TypeError:
                     got = "TypeError"
+                except KeyError:
+                    got = "kerr"
                 except Exception as e:  # noqa: BLE001
                     got = f"{type(e).__name__}: {e}"
                 stats["runs"] += 1
@@ -296,6 +305,7 @@ def run_one(ctx, program, tag):
     ctx.count("late_defaults", stats["late"])
     ctx.count("default_reregistrations", stats.get("rereg", 0))
     ctx.count("library_derived_blocks", stats.get("lib_blocks", 0))
+    ctx.count("requests_whose_handler_raised", stats.get("handler_raised", 0))
     if not program["start_with_runtime"]:
         ctx.count("started_without_runtime")
     if result.get("hung"):
@@ -343,6 +353,8 @@ def succession(ctx, r, case):
                     return types[T]().run()
                 except TypeError:
                     return "TypeError"
+                except KeyError:
+                    return "kerr"
                 except Exception as e:  # noqa: BLE001
                     return f"{type(e).__name__}: {e}"
 
